@@ -126,7 +126,7 @@ def run(chk):
     chk.groups = GROUPS
     chk.label_of = classify
     orders = [13] if quick else [7, 13, 199]
-    std_like = ["std", "i64"] + ([] if quick else ["verify", "i128s", "noasm"])      # i64: the 8x32 scalar and 10x26 field back ends
+    std_like = ["std", "i64", "noasm"] + ([] if quick else ["verify", "i128s"])      # i64: the 8x32 scalar and 10x26 field back ends
     chk.build(std_like + ["tiny%d" % o for o in orders])
     # design-level model of the transcribed heap sort + binding of the transcription to secp256k1_hsort
     recs = chk.generate("HeapSort.tla", "C04_hsort.cfg" if quick else "C04_hsort_thorough.cfg", "hsort", timeout=3000)
